@@ -2,6 +2,7 @@ import Logrange.Proofs.TIndexId
 import Logrange.Proofs.Quote
 import Logrange.Proofs.TIndexRun
 import Logrange.Proofs.TIndexGet
+import Logrange.Proofs.TIndexSave
 /-!
 # C06 — Partition identity is tag-set equality; FROM selects exactly the matches
 
@@ -15,7 +16,7 @@ Selection (`from_tags`, `from_expr`, `from_empty`, `tags_eval_correct`) holds fo
 -/
 namespace Logrange.Props.C06
 open Go Logrange.KV Logrange.Tags Logrange.TagsEval Logrange.TIndexId Logrange.Proofs.KV Logrange.Proofs.Tags
-  Logrange.Proofs.TagsEval Logrange.Proofs.TIndexId Logrange.Proofs.TIndexRun Logrange.Proofs.TIndexGet
+  Logrange.Proofs.TagsEval Logrange.Proofs.TIndexId Logrange.Proofs.TIndexRun Logrange.Proofs.TIndexGet Logrange.TIndexSave Logrange.Proofs.TIndexSave
 
 /-- full statement: whatever the index holds, two accepted non-empty tag texts get the same partition iff they
 denote the same set (false today, see `cex_two_sets_one_partition`) -/
@@ -209,6 +210,47 @@ example : SafeOps [([97,61,49], true), ([97], true), ([123,98,61,50,125], false)
       have h : parse [123,98,61,50,125] = some [([98],[50])] := by decide +kernel
       rw [h] at hm; exact (Option.some.inj hm).symm
     subst this; decide +kernel
+
+/-! ## A failing index save: `tmap` / `smap` consistency (model `TIndexSave`, facts regenerated from the create branch) -/
+
+/-- the create branch of `getOrCreateJournal` as it is now rolls back correctly: the `tmap` entry is deleted on a failed
+save, and since `smap` is written before the save that entry is deleted too (regenerated facts) -/
+theorem rollback_facts_good : GoodFacts codeFacts := codeFacts_good
+
+/-- **`tmap` and `smap` hold the same partitions after every sequence of calls, whatever saves fail** (and the
+line → partition invariant holds as well) -/
+theorem tmap_smap_consistent (ops : List (Bytes × Bool × Bool)) :
+    TInv (runS codeFacts {} ops).base ∧ SInv (runS codeFacts {} ops) :=
+  inv_runS codeFacts codeFacts_good ops
+
+/-- a refused write (failed save) leaves no trace in either map -/
+theorem save_failed_no_trace (s : StS) (raw : Bytes) (create saveOK : Bool)
+    (h : (getOrCreateS codeFacts s raw create saveOK).2 = .saveFailed) :
+    (getOrCreateS codeFacts s raw create saveOK).1.base = s.base ∧ (getOrCreateS codeFacts s raw create saveOK).1.smap = s.smap :=
+  Logrange.Proofs.TIndexSave.save_failed_no_trace codeFacts codeFacts_good s raw create saveOK h
+
+/-- the `Visit` that skips descriptors missing from `smap` is the plain filter on consistent states: `from_tags`,
+`from_expr`, `from_empty` apply to it -/
+theorem visit_skipping_unregistered_eq (so : StrOps) (s : StS) (h : SInv s) (src : Source) :
+    visitS so s src = visit so s.base src :=
+  visitS_eq_visit so s h src
+
+/-- **every acknowledged partition is selected by an empty FROM**, also when earlier saves failed and the write was a
+retry -/
+theorem acknowledged_selectable (so : StrOps) (s : StS) (h : SInv s) (raw : Bytes) (create saveOK : Bool) (i : Nat)
+    (hr : (getOrCreateS codeFacts s raw create saveOK).2 = .res (.ok i)) :
+    ∃ ds, visitS so (getOrCreateS codeFacts s raw create saveOK).1 .none = some ds ∧ ∃ d ∈ ds, d.src = i :=
+  Logrange.Proofs.TIndexSave.acknowledged_selectable so codeFacts codeFacts_good s h raw create saveOK i hr
+
+/-- with the smap registration moved behind the save and the roll-back dropped (seeded change), a failed first write
+followed by the retry is acknowledged with a partition that is in no `smap` and that the empty FROM misses -/
+theorem cex_half_registered :
+    let F : Facts := ⟨false, false, false⟩
+    let s1 := (getOrCreateS F {} [97,61,49] true false)
+    let s2 := getOrCreateS F s1.1 [97,61,49] true true
+    s1.2 = .saveFailed ∧ s2.2 = .res (.ok 0) ∧ s2.1.smap = [] ∧
+    (visitS ⟨id, id, fun _ _ => some false⟩ s2.1 .none).map (fun l => l.map (·.src)) = some [] :=
+  Logrange.Proofs.TIndexSave.cex_half_registered
 
 /-! ## Look-up without creation, refused texts, `Set.Equals` -/
 
